@@ -78,6 +78,11 @@ func ParseCFF2(src []byte) (*CFF2, error) {
 		return nil, err
 	}
 
+	// LoadGlyph requires at least one font dict
+	if len(fdIndex) == 0 {
+		return nil, errors.New("invalid CFF2 table: empty Font DICT INDEX")
+	}
+
 	out.fonts = make([]privateFonts, len(fdIndex))
 	// private dict reference
 	for i, font := range fdIndex {
